@@ -70,6 +70,8 @@ Definition chk_get_changes_impl (u : list change) (idx have res : list N) : bool
    classify a disagreement between the two checks above) *)
 Definition chain_ok_b (appl : list change) : bool :=
   forallb (fun c2 =>
+    let anc := ancestors appl [ch_hash c2] in
     forallb (fun c1 =>
-      negb (same_actor (ch_actor c1) (ch_actor c2) && (ch_seq c1 <? ch_seq c2))
-      || has_hash (ancestors appl [ch_hash c2]) (ch_hash c1)) appl) appl.
+      if same_actor (ch_actor c1) (ch_actor c2) then
+        if ch_seq c1 <? ch_seq c2 then has_hash anc (ch_hash c1) else true
+      else true) appl) appl.
